@@ -84,10 +84,12 @@ def _check(pos, ep, mark, where):
     return e
 
 
-def _remark(pos, ep, old_mark, new_mark, t, where):
+def _remark(pos, ep, old_mark, new_mark, t, where, via=None):
     before = (pos.realised_pnl, pos.net_quantity, pos.buy_quantity, pos.sell_quantity)
     u0 = pos.unrealised_pnl
-    if t is None:
+    if via is not None:
+        via.update_market_value_of_asset(pos.asset, new_mark, t)      # the mark arrives through the portfolio
+    elif t is None:
         pos.update_current_price(new_mark)          # the timestamp is optional
     else:
         pos.update_current_price(new_mark, t)
@@ -237,7 +239,8 @@ def run_case(case):
                     raise Violation('a refused re-mark changed (price, realised, unrealised, net) %r -> %r' % (
                         snap, (tgt.current_price, tgt.realised_pnl, tgt.unrealised_pnl, tgt.net_quantity)))
                 cls.add('refused_remark')
-            _remark(tgt, eps[ma], last[ma], mprice, None if no_dt else t, 'after fill %d (%s)' % (i, driver))
+            _remark(tgt, eps[ma], last[ma], mprice, None if no_dt else t, 'after fill %d (%s)' % (i, driver),
+                    via=port if driver == 'portfolio' and (i + len(fills)) % 2 else None)
             if no_dt:
                 cls.add('mark_without_timestamp')
             last[ma] = mprice
@@ -356,6 +359,8 @@ def ladders(draw):
             # ... except for the fill that opens a position, which is booked whatever its size
             qty = draw(st.sampled_from([0.5, 0.25, -0.5, 0.75]))
             subunit_open = True
+        if frac and net[a] != 0 and draw(st.sampled_from([False] * 5 + [True])):
+            qty = draw(st.sampled_from([-0.5, -0.25, -0.75]))        # a sell of less than one unit is booked like any other
         if driver != 'position' and draw(st.sampled_from([False] * 14 + [True])):
             qty = 0                 # an order sized down to zero shares
         net[a] += qty
